@@ -41,6 +41,8 @@ BUILT = {
          "trusted: Linux loopback delivers reliably within the retry schedule (missing datagrams are retried on three fresh socket pairs with 20/80/300 ms deadlines, other failures must reproduce on a second pair); this kernel supports GSO and GRO, a kernel without them is only approximated by the rejected-transmit fallback; send errors outside a model of the kernel's limits are discards"),
  "C20": ("simnet", "metamorphic replay relations on generated histories: R1 identical replay, R2 all instants shifted by a constant (1 us .. 10 years), R3 spurious handle_timeout/poll_transmit calls inserted; byte-exact output traces compared; extra calls return nothing; timeout service converges at one instant; silence after Drained",
          "trusted: harness; byte-exact under SimCrypto with seeded CID generator, reduced trace otherwise; TLS randomness excluded"),
+ "C15": ("simnet", "established connections with transfers in both directions while the link rewrites the client's source address at generated instants (port-only and full address changes, repeated, overlapping, moving back), an attacker replays genuine client datagrams from third addresses (race copies delivered before the original, and stale copies), PATH_CHALLENGE/PATH_RESPONSE are dropped selectively, CIDs rotate, with server migration on and off; oracles: the server follows the client within a computed bound once it keeps sending from the new address (challenge towards it, matching response from it, all later server datagrams go there, workload completes with intact data), at most 3x what was received from an address is sent to it until its PATH_RESPONSE was delivered, after a spoofed migration the server returns to the previous address within 3 PTO and never closes, path changes only on the highest-numbered non-probing packet, clients and non-migrating servers never send to or acknowledge packets from foreign addresses (twin run gives the same outcome)",
+         "trusted: link-side address plan and ledger; bounds use the probe's PTO sampled at the migration instant; strict byte-level twin equality is not asserted"),
  "C16": ("simnet", "datagram payload identity / at-most-once at recv(), oldest-first receive-buffer reference model fed with frames the connection reports processed, send() result model, send_buffer_space, max_size bounds, wire order, DatagramsUnblocked",
          "trusted: harness models; buffer model only under SimCrypto"),
 }
